@@ -287,9 +287,11 @@ theorem C16_stco_standard_video (w : Writer) (width height : Nat) (md : Option M
           (if vs ≠ [] then vs.length else 0) w.vLastDelta) none vc md).ser] :=
   (finalizeStandard_video_ok w width height md vc ha hok).2
 
-/-- standard layout with audio (`_partial`: extra hypothesis `32 + payload ≤ 2^32 - 1`): the writer
-    only checks `8 + payload ≤ 2^32 - 1` (the mdat size); the offsets start at 32, so they are
-    guaranteed to fit only when the payload is at least 24 bytes smaller than that bound -/
+/-- standard layout with audio (`_partial`: extra hypothesis `32 + payload ≤ 2^32 - 1`): the
+    offsets start at 32, so they fit when the payload is at least 24 bytes smaller than the
+    mdat-size bound `8 + payload ≤ 2^32 - 1`. Since `finalizeStandard` now also checks
+    `ftypLen + 8 + payload ≤ 2^32 - 1` ("MP4 chunk offset exceeds u32::MAX"), the extra hypothesis
+    follows from `hok`; the full-strength theorem is `C16_stco_standard_av` below. -/
 theorem C16_stco_standard_av_partial (w : Writer) (width height : Nat) (md : Option Metadata) (vc : VideoConfig)
     (tr : AudioTrack) (ha : w.audio = some tr) (hok : (finalizeStandard w width height md vc).res = .ok)
     (hsmall : ftypLen + 8 + ((w.vsRev.reverse.map (·.data.length)).sum +
@@ -311,11 +313,30 @@ theorem C16_stco_standard_av_partial (w : Writer) (width height : Nat) (md : Opt
   exact ⟨fun x hx => Nat.lt_of_le_of_lt (hb.1 x hx) hs, fun x hx => Nat.lt_of_le_of_lt (hb.2 x hx) hs,
     (finalizeStandard_av_ok w width height md vc tr ha hok).2⟩
 
-/-- FINDING (counterexample to the unguarded case): one video sample of 2^32 - 10 bytes followed by
-    one audio sample of 1 byte pass the mdat-size check (8 + payload = 2^32 - 1) in the standard
-    layout, and the audio chunk offset is 2^32 + 22 — it does not fit the 32-bit stco field (the
-    model writes it modulo 2^32, i.e. 22; the Rust `cursor += sample_len` on `u32` wraps in release
-    builds and panics with overflow checks). Stated on the cursor walk with the two sizes. -/
+/-- standard layout with audio, full strength: whenever `finalizeStandard` succeeds, every chunk
+    offset handed to the two `stco` boxes fits 32 bits (the chunk-offset guard of the layout
+    implies the hypothesis of the `_partial` form) -/
+theorem C16_stco_standard_av (w : Writer) (width height : Nat) (md : Option Metadata) (vc : VideoConfig)
+    (tr : AudioTrack) (ha : w.audio = some tr) (hok : (finalizeStandard w width height md vc).res = .ok) :
+    let vs := w.vsRev.reverse
+    let aus := w.asRev.reverse
+    let payload := (vs.map (·.data.length)).sum + (aus.map (·.data.length)).sum
+    let o := assignOffsets (entSize vs aus) (schedule vs aus) (ftypLen + 8)
+    (∀ x ∈ o.1, x < 2^32) ∧ (∀ x ∈ o.2, x < 2^32) ∧
+    (finalizeStandard w width height md vc).chunks =
+      [bFtyp.ser] ++ mdatHeader payload ++ (schedule vs aus).map (entData vs aus) ++
+      [(bMoov width height (Tables.ofSamples vs o.1 1 w.vLastDelta)
+          (some (tr, Tables.ofSamples aus o.2 1 w.aLastDelta)) vc md).ser] :=
+  C16_stco_standard_av_partial w width height md vc tr ha hok
+    (finalizeStandard_av_ok_offset w width height md vc tr ha hok)
+
+/-- Counterexample to the cursor walk WITHOUT the chunk-offset guard (the former defect; this case
+    is now excluded by `finalizeStandard`, see `C16_stco_standard_av_counterexample_guarded` and
+    `C16_stco_standard_av`): one video sample of 2^32 - 10 bytes followed by one audio sample of
+    1 byte pass the mdat-size check alone (8 + payload = 2^32 - 1), and `assignOffsets` gives the
+    audio chunk the offset 2^32 + 22 — it does not fit the 32-bit stco field (`u32be` would write it
+    modulo 2^32, i.e. 22). Stated on the cursor walk with the two sizes; it shows that the mdat-size
+    check by itself does not bound the offsets, i.e. the extra guard is necessary. -/
 theorem C16_stco_standard_av_counterexample :
     let step : Ent → Nat := fun e => if e.kind = 0 then 2^32 - 10 else 1
     let sched : List Ent := [⟨0, 0, 0⟩, ⟨0, 1, 0⟩]
@@ -323,6 +344,25 @@ theorem C16_stco_standard_av_counterexample :
     assignOffsets step sched (ftypLen + 8) = ([32], [2^32 + 22]) ∧
     ¬ (2^32 + 22 < 2^32) ∧ u32be (2^32 + 22) = u32be 22 := by
   refine ⟨by decide, by decide, by decide, by decide⟩
+
+/-- … and on exactly these sizes the chunk-offset guard of `finalizeStandard` fires -/
+theorem C16_stco_standard_av_counterexample_guarded :
+    let step : Ent → Nat := fun e => if e.kind = 0 then 2^32 - 10 else 1
+    let sched : List Ent := [⟨0, 0, 0⟩, ⟨0, 1, 0⟩]
+    ftypLen + 8 + (sched.map step).sum > u32Max := by
+  decide
+
+/-- the standard A/V layout refuses (and writes only `ftyp`) when the mdat size fits but the last
+    chunk offset could exceed 32 bits -/
+theorem C16_finalizeStandard_rejects_offset (w : Writer) (width height : Nat) (md : Option Metadata)
+    (vc : VideoConfig) (tr : AudioTrack) (ha : w.audio = some tr)
+    (h1 : 8 + ((w.vsRev.reverse.map (·.data.length)).sum + (w.asRev.reverse.map (·.data.length)).sum) ≤ u32Max)
+    (h2 : ftypLen + 8 + ((w.vsRev.reverse.map (·.data.length)).sum +
+      (w.asRev.reverse.map (·.data.length)).sum) > u32Max) :
+    finalizeStandard w width height md vc = ⟨[bFtyp.ser], .ioErr "MP4 chunk offset exceeds u32::MAX"⟩ := by
+  unfold finalizeStandard
+  simp only [ha]
+  rw [if_neg (Nat.not_lt.mpr h1), if_pos h2]
 
 /-! ## 4. rejections -/
 
